@@ -220,6 +220,11 @@ NoEarlyStop == (kind # "map" /\ stopped /\ ~gdead) => (lenset /\ done = AllParts
 ContinuesAfterError == [][(kind # "map" /\ last = "error" /\ act'.name = "NextItem" /\ items # <<>>)
                              => (last' \in {"item", "error"} \/ (TolChunkedImapStops /\ c > 1))]_vars
 
+(* completeness: once every part's result has been processed nothing is held back *)
+ImapComplete == (kind # "map" /\ done = AllParts /\ sent = NParts) =>
+                    (unsorted = {} /\ idx = NParts /\ (lenset => (iready /\ ~incache)))
+MapComplete == (kind = "map" /\ done = AllParts /\ sent = NParts) => (mready /\ ~incache)
+
 Proj == [n |-> n, c |-> c, kind |-> kind, fails |-> fails, cgiven |-> cgiven, psize |-> psize,
          sent |-> sent, lenset |-> lenset, acked |-> acked, done |-> done, incache |-> incache,
          mval |-> mval, merr |-> merr, mleft |-> mleft, mready |-> mready, msucc |-> msucc, mcb |-> mcb,
